@@ -114,6 +114,24 @@ def run(seed, checks, tier="quick"):
         sh("git -C /repo checkout -- .")
     json.dump(results, open(os.path.join(SEEDED, "RESULTS.json"), "w"), indent=1, sort_keys=True)
 
+def runlab(lab, seeds, tier="quick"):
+    """like run, but in a scratch lab (labtool.py) so that /repo and /verif stay untouched; results are
+    recorded under '<check>/<tier>@lab' and are re-confirmed on /repo by `run` before they are reported"""
+    import labtool
+    if not os.path.exists(labtool.lab(lab)):
+        labtool.create(lab)
+    else:
+        labtool.sync(lab)
+    for seed in seeds:
+        d = os.path.join(SEEDED, seed)
+        meta = json.load(open(os.path.join(d, "meta.json")))
+        for r in labtool.run_checks(lab, os.path.join(d, "patch.diff"), tier, [meta["property"]]):
+            verdict = {"held": "MISSED (held)"}.get(r["verdict"], r["verdict"])
+            print("%s vs %s %s @lab %s: %s (%s VIOLATION lines, %.0fs) %s" % (seed, r["id"], tier, lab, verdict, r.get("violations"), r["wall"], r["first"][:200]), flush=True)
+            results = load_results()
+            results.setdefault(seed, {})["%s/%s@lab" % (r["id"], tier)] = {"verdict": verdict, "violation_lines": r.get("violations"), "first": [r["first"]], "wall_s": r["wall"]}
+            json.dump(results, open(os.path.join(SEEDED, "RESULTS.json"), "w"), indent=1, sort_keys=True)
+
 if __name__ == "__main__":
     if len(sys.argv) < 2:
         print(__doc__)
@@ -121,6 +139,8 @@ if __name__ == "__main__":
         verify(sys.argv[2], sys.argv[3])
     elif sys.argv[1] == "run":
         run(sys.argv[2], sys.argv[3:])
+    elif sys.argv[1] == "runlab":
+        runlab(sys.argv[2], sys.argv[3:])
     elif sys.argv[1] == "runall":
         tier = sys.argv[2] if len(sys.argv) > 2 else "quick"
         for s in sorted(os.listdir(SEEDED)):
